@@ -79,6 +79,13 @@ func (st *DelegationStore) GetValidatorDelegationAmount(validatorAddress keys.Ad
 	return
 }
 
+// HasValidatorDelegation reports whether the delegator ever locked funds with the validator (the
+// record stays, with amount 0, after everything has been unstaked).
+func (st *DelegationStore) HasValidatorDelegation(validatorAddress keys.Address, delegatorAddress keys.Address) bool {
+	prefixKey := append(st.prefix, st.getVDKey(validatorAddress, delegatorAddress)...)
+	return st.state.Exists(storage.StoreKey(prefixKey))
+}
+
 func (st *DelegationStore) SetValidatorDelegationAmount(validatorAddress keys.Address, delegatorAddress keys.Address, amt balance.Amount) (err error) {
 	key := st.getVDKey(validatorAddress, delegatorAddress)
 	err = st.Set(key, &amt)
